@@ -1,5 +1,6 @@
 """T8 OFFSET rules for the three id spaces of the BPE tokenizer (merge id, token id = 256 + merge id,
 index into the token table state.1 = token id). Shared by C02 (tokenize/de_tokenize side) and C04 (vocabulary maps)."""
+import re
 from analysis.engine import AnchorMissing
 from analysis.sym import sym, show_in, nosite, peel, core, walk, cmp_facts_at, ret_values, args_of, loop_source, init_value
 from analysis.pat import match, Call, Cap, ANY, Pred, Const, chain, chain_names, has
@@ -78,6 +79,13 @@ def check_table_index(ctx, body, what):
                     % (what, show_in(body, x), seen or 'none'), t.span)
 
 
+def _src_ty(body, sort_term):
+    """the vector that the in-place sort rearranges holds the entries of the merge table (`Vec<(&Vec<u8>, &u32)>`)"""
+    r = core(sym(body, sort_term.args[0]))
+    ty = body.local_ty(r[2]) if r[0] == 'var' and len(r) > 2 else ''
+    return bool(re.search(r'Vec<\(&?(std::vec::)?Vec<u8>, &?u32\)', ty))
+
+
 def check_writer(ctx):
     """T8-a: BPETokenizer::new fills the token table with 256 byte tokens then one token per merge in id order,
     and the special-token offset is the table length"""
@@ -91,6 +99,12 @@ def check_writer(ctx):
     segs = seq_of(ctx.facts, body, st0[3][1]) if st0[0] == 'agg' and len(st0[3]) >= 2 else None
     if segs is None:
         raise AnchorMissing('construction of the token table passed as state.1')
+    # the merge run either comes from `iter().sorted_by_key(..)` or from a Vec of the entries that is sorted in place by the same key
+    # before it is chained in (SEQ kind 'sorted'); `inplace` is that sort call
+    inplace = None
+    if len(segs) == 2 and segs[1].kind == 'sorted' and len(segs[1].inner) == 1 and segs[1].what in ('sort_by_key', 'sort_by_cached_key'):
+        inplace = segs[1].term
+        segs = [segs[0], segs[1].inner[0]]
     ok = len(segs) == 2 and all(s.kind == 'each' and not s.conds for s in segs)
     ctx.require(ok, body, 'table-order', 'the token table is the byte tokens followed by the merge tokens, nothing else',
                 'the token table is built as %s' % [repr(s)[:140] for s in segs])
@@ -100,7 +114,13 @@ def check_writer(ctx):
     good = False
     if ok:
         src = peel(segs[1].src)
-        if src[0] == 'call' and src[1].endswith('sorted_by_key') and match(core(src[2][0]), Pred(lambda u: 'HashMap<std::vec::Vec<u8>, u32>' in body.local_ty(u[2]) if u[0] == 'var' and len(u) > 2 else False)):
+        ishm = Pred(lambda u: 'HashMap<std::vec::Vec<u8>, u32>' in body.local_ty(u[2]) if u[0] == 'var' and len(u) > 2 else False)
+        if inplace is not None:
+            if _src_ty(body, inplace):
+                clo = closure_of(ctx, sym(body, inplace.args[1]))
+                rv = ret_values(clo)
+                good = len(rv) == 1 and match(core(rv[0][0]), ('field', ('arg', 2, ANY), 1)) and core(segs[1].elem) == ('field', ITEM, 0)
+        elif src[0] == 'call' and src[1].endswith('sorted_by_key') and match(core(src[2][0]), Pred(lambda u: 'HashMap<std::vec::Vec<u8>, u32>' in body.local_ty(u[2]) if u[0] == 'var' and len(u) > 2 else False)):
             clo = closure_of(ctx, src[2][1])
             rv = ret_values(clo)
             # key closure returns the merge id = component 1 of the (bytes, id) entry; the token is component 0
